@@ -422,6 +422,15 @@ func encodePage(ch ChunkSpec, p PageSpec, dictIdx map[string]int) ([]byte, error
 		ph.SetI32(4, 0x1234567) // crc
 		ph.F[99] = TVal{T: TBinary, B: []byte("unknown field")}
 	}
+	// a page of another type whose header ALSO carries a (leftover) data_page_header struct: the type decides
+	switch p.Feature {
+	case "type-v2-with-dph":
+		ph.SetI32(1, PageData2).SetSt(8, NewSt().SetI32(1, int64(n)).SetI32(2, 0).SetI32(3, int64(n)).SetI32(4, EncPlain).SetI32(5, int64(len(defBytes))).SetI32(6, int64(len(repBytes))))
+	case "type-index-with-dph":
+		ph.SetI32(1, PageIndex).SetSt(6, NewSt())
+	case "type-dict-with-dph":
+		ph.SetI32(1, PageDict).SetSt(7, NewSt().SetI32(1, int64(n)).SetI32(2, EncPlain))
+	}
 	out = append(out, thriftBytes(ph)...)
 	return append(out, body...), nil
 }
